@@ -132,6 +132,14 @@ func (x *world) body(t *f1testing.T) {
 			need := int64(x.c.workers)
 			vrt.WaitUntil("barrier-after-failed-cleanup", func() bool { return x.entered >= need })
 		}
+	case "first-passes-then-barrier":
+		// a tick smaller than the pool wakes workers that find nothing to do; afterwards all
+		// workers must still be there to execute at the same time
+		if myIdx > 0 {
+			x.entered++
+			need := int64(x.c.workers)
+			vrt.WaitUntil("barrier-after-a-small-tick", func() bool { return x.entered >= need })
+		}
 	case "first-waits-for-last":
 		// one slow iteration: the first one started does not finish before the last allowed one has begun,
 		// so the other workers have to run everything in between (and, in users mode, keep going)
@@ -643,6 +651,9 @@ func scenariosFor(tier string) []vrt.Scenario {
 			adder(cfg{kind: "continuous", workers: wk, gate: "yield", bodyDur: time.Millisecond, runFor: 2 * time.Millisecond})
 		}
 		addDelay(2, cfg{kind: "trigger", workers: 2, ticks: q(2, 3), gate: "barrier", stop: "cancel-q"})
+		// a tick of one job for two / three idle workers (and a tick of none), then a tick that needs them all
+		addDelay(2, cfg{kind: "trigger", workers: 2, ticks: q(1, 2), gate: "first-passes-then-barrier", stop: "cancel-q"})
+		addDelay(1, cfg{kind: "trigger", workers: 3, ticks: q(1, 0, 3), gate: "first-passes-then-barrier", stop: "cancel-q"})
 		// a negative tick first: the next tick's requests must still reach all the workers
 		addDelay(1, cfg{kind: "trigger", workers: 2, ticks: q(-1, 2), gate: "barrier", stop: "cancel-q"})
 		// tick sizes at the 32-bit boundaries (the limit ends the run: what is pending then is discarded in one step)
